@@ -23,6 +23,15 @@ def main(tier):
     hists, rg = LC.gen_histories(d, n, 12 if quick else 20, V.seed())
     ev.add_tlc('history generation (simulation of Lifecycle)', rg)
     rnd = random.Random(V.seed())
+    # three quarters of the histories that would destroy the router with actions still queued (the known finding F10 ends those
+    # executions at once) get a final processTransaction(): Process is enabled in Lifecycle whenever transactions are on
+    for h in hists:
+        txn_on = True
+        for o in h:
+            if o[0] == 14:
+                txn_on = bool(o[1])
+        if txn_on and h and h[-1][0] != 13 and rnd.random() < 0.75:
+            h.append([13])
     scen = os.path.join(d, 'scen.txt')
     cfgs = LC.write_scenarios(scen, hists, rnd)
     # ---- sanitizer replay (ASan + UBSan + LSan): what a TLA+ specification cannot see
